@@ -1,7 +1,12 @@
 """C10 -- saving and reloading the array state is lossless.
 
-Proof: coq/Codec/CodecProofs.v over the executable model coq/Codec/CodecModel.v (decode = state_read_content,
-encode = state_write_content + state_write_thread).  The model is tied to the C on every run:
+Proof (coq/Codec/CodecProofs.v, CodecRoundTrip.v, CodecRewrite.v, CodecExample.v) over the executable model
+coq/Codec/CodecModel.v (decode = state_read_content, encode = state_write_content + state_write_thread):
+  decode (conf_of s) (encode now s) = Ok (normalise now s) for every well-formed s and 8 <= now;
+  encode now (normalise now s) = encode now s when no info time is clamped (rewrite reproduces the bytes);
+  a witness that the rewrite does NOT reproduce the bytes when the clock is behind an info time (finding);
+  copies identical.  Not proved in general, evaluated on every generated state: normalise idempotent.
+The model is tied to the C on every run:
 
   route A (real -> model)  tiny arrays are driven through the real binary (sync, partial sync, scrub with a silently
            corrupted block, rehash, moves between disks, deletions, rewrite with a clock in the past); after every
@@ -15,7 +20,9 @@ encode = state_write_content + state_write_thread).  The model is tied to the C 
            reproduce the file byte for byte; the extracted decode (encode s) must equal normalise s (failing-input search
            of the theorems);
   route C  damaged files (truncations, byte changes with the CRC repaired, wild counts): the model and the real
-           loader must agree on accept / reject, and on the state when they accept."""
+           loader must agree on accept / reject, and on the state when they accept;
+  route D  the loader without configuration (`snapraid -C`): generated configuration against the model's decode with
+           no_conf (auto-created disks, levels and splits)."""
 import os, sys, json, time, threading, subprocess, shutil, re, resource, struct, hashlib
 from concurrent.futures import ThreadPoolExecutor
 from common import *
@@ -552,10 +559,15 @@ def malformed_case(ctx, A, kline, data, what, tag):
         ctx.stats['malformed'] += 1
         ctx.stats['commands'] += 1
     if dec.startswith('ok '):
+        s = L.parse_state(dec[3:])
         if not acc:
+            # state_map, after the load and outside the model: "Too many data disks" when a map position is >= RAID_DATA_MAX (251)
+            if any(m['pos'] + 1 > 251 for m in s['maps']):
+                with ctx.lock:
+                    ctx.stats['malformed_rejected_by_state_map'] = ctx.stats.get('malformed_rejected_by_state_map', 0) + 1
+                return
             ctx.viol(tag, 'MODEL-DRIFT damaged file (%s): the model accepts, the tool rejects (rc %d)' % (what, rc), rep, no_input=True)
             return
-        s = L.parse_state(dec[3:])
         got = sorted(l for l in lines if L.LIST_KEEP.match(l))
         if got != L.expected_list(s) or L.log_counts(lines) != L.expected_counts(s):
             ctx.viol(tag, 'MODEL-DRIFT damaged file (%s) accepted by both, but the states differ: %s' % (what, json.dumps(diff_lists(got, L.expected_list(s)))), rep, no_input=True)
@@ -734,7 +746,8 @@ def main(tier, replay=None):
                     'harness/py/c10_lib.py (expected `list -l` / `status -G -l` dumps), harness/py/c10_gen.py (state generator, independent normalise)',
                     'the extent trees of elem.c are abstracted to "parity position -> block" lookups; a position used twice aborts at the end of the load '
                     'in the model, possibly earlier in the C (same verdict)',
-                    'NOT modelled: state_map after the load (new maps for unmapped configured disks, UUID updates), the text/SNAPCNT1-only paths, '
+                    'NOT modelled: state_map after the load (new maps for unmapped configured disks, UUID updates, the limit of 251 data disk positions -- '
+                    'the check knows that limit when it compares accept/reject on damaged files), the text/SNAPCNT1-only paths, '
                     'I/O errors while writing, multi-threaded writers (every thread runs the same state_write_thread on the same state)'])
     cb = check_consts(chk, snap)
     if cb:
